@@ -78,7 +78,10 @@ impl MetadataSpec {
         ordering: Ordering,
     ) -> T {
         #[cfg(mmtk_verif)]
-        crate::util::verif::rt::yield_point(crate::util::verif::rt::site::META_LOAD);
+        crate::util::verif::rt::yield_point_at(
+            crate::util::verif::rt::site::META_LOAD,
+            object.to_raw_address().as_usize(),
+        );
         match self {
             MetadataSpec::OnSide(metadata_spec) => {
                 metadata_spec.load_atomic(object.to_raw_address(), ordering)
@@ -131,7 +134,10 @@ impl MetadataSpec {
         ordering: Ordering,
     ) {
         #[cfg(mmtk_verif)]
-        crate::util::verif::rt::yield_point(crate::util::verif::rt::site::META_STORE);
+        crate::util::verif::rt::yield_point_at(
+            crate::util::verif::rt::site::META_STORE,
+            object.to_raw_address().as_usize(),
+        );
         match self {
             MetadataSpec::OnSide(metadata_spec) => {
                 metadata_spec.store_atomic(object.to_raw_address(), val, ordering);
@@ -168,7 +174,10 @@ impl MetadataSpec {
         failure_order: Ordering,
     ) -> std::result::Result<T, T> {
         #[cfg(mmtk_verif)]
-        crate::util::verif::rt::yield_point(crate::util::verif::rt::site::META_CAS);
+        crate::util::verif::rt::yield_point_at(
+            crate::util::verif::rt::site::META_CAS,
+            object.to_raw_address().as_usize(),
+        );
         match self {
             MetadataSpec::OnSide(metadata_spec) => metadata_spec.compare_exchange_atomic(
                 object.to_raw_address(),
@@ -207,7 +216,10 @@ impl MetadataSpec {
         order: Ordering,
     ) -> T {
         #[cfg(mmtk_verif)]
-        crate::util::verif::rt::yield_point(crate::util::verif::rt::site::META_FETCH);
+        crate::util::verif::rt::yield_point_at(
+            crate::util::verif::rt::site::META_FETCH,
+            object.to_raw_address().as_usize(),
+        );
         match self {
             MetadataSpec::OnSide(metadata_spec) => {
                 metadata_spec.fetch_add_atomic(object.to_raw_address(), val, order)
@@ -234,7 +246,10 @@ impl MetadataSpec {
         order: Ordering,
     ) -> T {
         #[cfg(mmtk_verif)]
-        crate::util::verif::rt::yield_point(crate::util::verif::rt::site::META_FETCH);
+        crate::util::verif::rt::yield_point_at(
+            crate::util::verif::rt::site::META_FETCH,
+            object.to_raw_address().as_usize(),
+        );
         match self {
             MetadataSpec::OnSide(metadata_spec) => {
                 metadata_spec.fetch_sub_atomic(object.to_raw_address(), val, order)
@@ -261,7 +276,10 @@ impl MetadataSpec {
         order: Ordering,
     ) -> T {
         #[cfg(mmtk_verif)]
-        crate::util::verif::rt::yield_point(crate::util::verif::rt::site::META_FETCH);
+        crate::util::verif::rt::yield_point_at(
+            crate::util::verif::rt::site::META_FETCH,
+            object.to_raw_address().as_usize(),
+        );
         match self {
             MetadataSpec::OnSide(metadata_spec) => {
                 metadata_spec.fetch_and_atomic(object.to_raw_address(), val, order)
@@ -288,7 +306,10 @@ impl MetadataSpec {
         order: Ordering,
     ) -> T {
         #[cfg(mmtk_verif)]
-        crate::util::verif::rt::yield_point(crate::util::verif::rt::site::META_FETCH);
+        crate::util::verif::rt::yield_point_at(
+            crate::util::verif::rt::site::META_FETCH,
+            object.to_raw_address().as_usize(),
+        );
         match self {
             MetadataSpec::OnSide(metadata_spec) => {
                 metadata_spec.fetch_or_atomic(object.to_raw_address(), val, order)
@@ -321,7 +342,10 @@ impl MetadataSpec {
         f: F,
     ) -> std::result::Result<T, T> {
         #[cfg(mmtk_verif)]
-        crate::util::verif::rt::yield_point(crate::util::verif::rt::site::META_FETCH);
+        crate::util::verif::rt::yield_point_at(
+            crate::util::verif::rt::site::META_FETCH,
+            object.to_raw_address().as_usize(),
+        );
         match self {
             MetadataSpec::OnSide(metadata_spec) => metadata_spec.fetch_update_atomic(
                 object.to_raw_address(),
